@@ -166,8 +166,17 @@ def run(M, rep, tier, only=None):
     from .common import tree_finders
     tf = tree_finders(ctx)
     tname = lambda k: tf[k].node.name if tf.get(k) is not None else "_find_" + k
-    for cn, tree, pub in (("Container", None, None), ("SectionContainer", tname("sections"), "find_sections"),
-                          ("SourceContainer", tname("sources"), "find_sources")):
+    owners = [("Container", None, None), ("SectionContainer", tname("sections"), "find_sections"),
+              ("SourceContainer", tname("sources"), "find_sources")]
+    # every other owning container of the package (a subclass of Container outside the link-list family), analysed with
+    # its own class as the receiver: an override or an overridden lookup must keep the contract
+    cbase, lbase = M.classes.get("Container"), M.classes.get("LinkContainer")
+    if cbase is not None:
+        for k in sorted(M.subclasses(cbase), key=lambda c_: c_.name):
+            if k.name in [o[0] for o in owners] or k is cbase or (lbase is not None and M.is_subclass(k, lbase)):
+                continue
+            owners.append((k.name, None, None))
+    for cn, tree, pub in owners:
         f = ctx.member(cn, "__delitem__")
         key = cn + ".__delitem__"
         if f is None:
@@ -191,6 +200,17 @@ def run(M, rep, tier, only=None):
             txt = show(eid.t) if eid is not None else ""
             if ".id" not in txt and "entity_id" not in txt:
                 bad = (p, "the id list %s does not derive from the deleted item's id" % txt[:80])
+                break
+            # ... of an item that IS a member of this container (found through the container's own group) or an entity object
+            # of the container's kind -- a bare key that merely looks like an id names anything in the file
+            via_own = any(x == ("attr", ("self",), "_backend") for x in subterms(eid.t))
+            typed = "item" in params_of(eid.t) and (
+                any(a[0] == "isinst" and a[1] == ("param", "item") and v is True for a, v in p.decisions) or
+                # delegated to another container's __delitem__ (composed: its own decisions are checked under its own class)
+                any(a[0] == "outcome" and isinstance(a[1], str) and a[1].endswith(".__delitem__") for a, v in p.decisions))
+            if not via_own and not typed:
+                bad = (p, "the id list %s is not the id of a member looked up in this container (nor of an entity object of its kind): "
+                       "a key that names something else in the file deletes that" % txt[:80])
                 break
             if tree and not ({tree.lstrip("_"), pub} & called_names(eid.t)):
                 bad = (p, "the id list does not include the item's subtree (%s)" % tree)
